@@ -360,6 +360,40 @@ def fam_errbase(tier: str, rng: random.Random) -> Iterator[dict]:
                         yield p
 
 
+def fam_badkw(tier: str, rng: random.Random) -> Iterator[dict]:
+    """Calls that pass an unexpected keyword named like a reserved name (result=...) through the callee's **kwargs,
+    mixed with ordinary calls of the same callable: rejected with TypeError where the callable has postconditions
+    (an ordinary argument elsewhere), and the calls after it are checked like the first."""
+    for kind in ("func", "method", "static", "class"):
+        for has_inv in ([False] if kind != "method" else [False, True]):
+            for npre, npost in ((1, 0), (0, 1), (1, 1), (1, 2)):
+                for isasync in (False, True):
+                    for pre_ok, post_ok in ((True, True), (False, True), (True, False)):
+                        if (not pre_ok and not npre) or (not post_ok and not npost):
+                            continue
+                        for pattern in ((1, 0, 0), (0, 1, 0), (1, 1, 0), (1, 0, 1)):
+                            p = member_prog(kind, has_inv, [[1]] if npre else [], npost, 0, [pre_ok] * npre,
+                                            [post_ok] * npost, ["default"], False, isasync, ncalls=3, tag="badkw")
+                            if p is None:
+                                continue
+                            calls = [op for op in p["drv"][0] if op["f"] == len(p["fn"])]
+                            for op, bad in zip(calls, pattern):
+                                if bad:
+                                    op["bad"] = 1
+                            p["badkw"] = True
+                            yield p
+    # the unexpected keyword passed by a re-entrant call (made by the function's own condition)
+    for isasync in (False, True):
+        for npost in (0, 1):
+            cons = [Con("pre", script=[dict(Op("call", 1, 0, 1), bad=1)])] + [Con("post")] * npost
+            fns = [Fn("func", 0, isasync, ["chk"], [[1]], [], [2] if npost else [])]
+            if isasync:
+                cons[0]["rv"] = "corofn"
+            p = Prog(fns, [dict(c) for c in cons], [], [], [], [[Op("call", 1, 0, 1), Op("call", 1, 0, 2)]], tag="badkw-reent")
+            p["badkw"] = True
+            yield p
+
+
 def fam_order(tier: str, rng: random.Random) -> Iterator[dict]:
     """C16: several simultaneously falsy contracts at different positions / levels; all truth assignments."""
     shapes = [[[1, 2]], [[1, 2, 3]], [[1], [2]], [[1, 2], [3]], [[1], [2, 3]], [[1], [2], [3]], [[1, 2], [3, 4]]]
